@@ -1,40 +1,53 @@
 #!/usr/bin/env python3
-"""Re-run every kept seeded change against the current /repo HEAD: apply, run the property's quick check
-(with a scratch evidence dir), revert. Writes seeded/RESULTS.json (what was run, what each check said)."""
-import json, os, subprocess, sys, glob
+"""Re-run every kept seeded change against the current /repo HEAD. Each patch is applied in its own scratch
+worktree of /repo's HEAD under /tmp and the driver is pointed at it with VERIF_REPO (private copy of the harness
+sources, scratch evidence dir), so /repo itself is never touched and several seeds run side by side; worktree and
+build output are removed afterwards. Runs the property's quick check (plus meta.also_run). Writes
+seeded/RESULTS.json (what was run, what each check said).   usage: try_all_seeds.py [-j N] [SEED_ID ...]"""
+import json, os, subprocess, sys, glob, shutil, hashlib
+from concurrent.futures import ThreadPoolExecutor
 ROOT = "/verif"
-only = sys.argv[1:]
-res = {}
+args = sys.argv[1:]
+jobs = 4
+if "-j" in args:
+    i = args.index("-j"); jobs = int(args[i + 1]); del args[i:i + 2]
+only = args
 head = subprocess.run(["git", "-C", "/repo", "rev-parse", "--short", "HEAD"], capture_output=True, text=True).stdout.strip()
-assert subprocess.run(["git", "-C", "/repo", "status", "--porcelain"], capture_output=True, text=True).stdout.strip() == "", "/repo not clean"
-for d in sorted(glob.glob(os.path.join(ROOT, "seeded", "C*"))):
+
+def one(d):
     sid = os.path.basename(d)
-    if only and sid not in only:
-        continue
     meta = json.load(open(os.path.join(d, "meta.json")))
     patch = os.path.join(d, "patch.diff")
-    chk = subprocess.run(["git", "-C", "/repo", "apply", "--check", patch], capture_output=True, text=True)
-    if chk.returncode != 0:
-        res[sid] = {"applies": False, "note": chk.stderr.strip()[:200]}
-        print(sid, "DOES NOT APPLY")
-        continue
-    subprocess.run(["git", "-C", "/repo", "apply", patch], check=True)
+    tag = hashlib.sha1((sid + str(os.getpid())).encode()).hexdigest()[:8]
+    wt, scratch = "/tmp/seedwt_" + tag, "/tmp/seedscratch_" + tag
+    subprocess.run(["git", "-C", "/repo", "worktree", "add", "--detach", wt, "HEAD"], check=True, capture_output=True)
     try:
-        env = dict(os.environ, VERIF_EVIDENCE_DIR="/tmp/seed_evidence")
-        os.makedirs("/tmp/seed_evidence", exist_ok=True)
-        props = [meta["property"]] + [p for p in meta.get("also_run", [])]
+        chk = subprocess.run(["git", "-C", wt, "apply", patch], capture_output=True, text=True)
+        if chk.returncode != 0:
+            print(sid, "DOES NOT APPLY", flush=True)
+            return sid, {"applies": False, "note": chk.stderr.strip()[:200]}
+        os.makedirs(scratch, exist_ok=True)
+        env = dict(os.environ, VERIF_REPO=wt, VERIF_SCRATCH=scratch, VERIF_EVIDENCE_DIR=os.path.join(scratch, "ev"), VERIF_SEED="1")
         out = {}
-        for p in props:
-            r = subprocess.run([os.path.join(ROOT, "check"), p], capture_output=True, text=True, env=env)
+        for p in [meta["property"]] + list(meta.get("also_run", [])):
+            r = subprocess.run([os.path.join(ROOT, "check"), p, "--threads", str(max(4, 16 // jobs))], capture_output=True, text=True, env=env, cwd=ROOT)
             viol = [l for l in r.stdout.splitlines() if l.startswith("VIOLATION")]
             out[p] = {"exit": r.returncode, "violation_lines": len(viol), "first": viol[0][:260] if viol else ""}
-        res[sid] = {"applies": True, "checks": out, "caught": any(v["exit"] == 1 and v["violation_lines"] > 0 for v in out.values())}
-        print(sid, "caught" if res[sid]["caught"] else "MISSED", {p: (v["exit"], v["violation_lines"]) for p, v in out.items()})
+        res = {"applies": True, "checks": out, "caught": any(v["exit"] == 1 and v["violation_lines"] > 0 for v in out.values())}
+        print(sid, "caught" if res["caught"] else "MISSED", {p: (v["exit"], v["violation_lines"]) for p, v in out.items()}, flush=True)
+        return sid, res
     finally:
-        subprocess.run(["git", "-C", "/repo", "checkout", "--", "."], check=True)
+        subprocess.run(["git", "-C", "/repo", "worktree", "remove", "--force", wt], capture_output=True)
+        shutil.rmtree(scratch, ignore_errors=True)
+
+dirs = [d for d in sorted(glob.glob(os.path.join(ROOT, "seeded", "C*"))) if not only or os.path.basename(d) in only]
+with ThreadPoolExecutor(max_workers=jobs) as ex:
+    res = dict(ex.map(one, dirs))
 prev = {}
 rp = os.path.join(ROOT, "seeded", "RESULTS.json")
 if os.path.exists(rp) and only:
     prev = json.load(open(rp)).get("results", {})
 prev.update(res)
-json.dump({"repo_head": head, "tier": "quick", "results": prev}, open(rp, "w"), indent=1)
+json.dump({"repo_head": head, "tier": "quick", "mode": "each patch applied in a scratch worktree of /repo HEAD, driver run with VERIF_REPO", "results": prev}, open(rp, "w"), indent=1, sort_keys=True)
+missed = [k for k, v in prev.items() if not v.get("caught")]
+print("seeds: %d, caught: %d, not caught / not applying: %s" % (len(prev), len(prev) - len(missed), missed))
